@@ -836,3 +836,9 @@ add("C04", "revert: sp_rename target name placed raw between quotes", "sqlglot/g
 add("C04", "benign: escaped text bound to a local before it is quoted", "sqlglot/generators/tsql.py",
     "            return f\"EXEC sp_rename '{old_name}', '{self.escape_str(action.this.name)}'\"",
     "            new_name = self.escape_str(action.this.name)\n            return f\"EXEC sp_rename '{old_name}', '{new_name}'\"", "silent", 0)
+
+add("C08", "revert: replace() clears the links of a node contained in its own replacement list", CORE,
+    "        if expression is not self and not (\n            type(expression) is list and any(e is self for e in expression)\n        ):\n",
+    "        if expression is not self:\n", "C08.b")
+add("C08", "revert: pushdown_dnf embeds the looked-up predicate itself", "sqlglot/optimizer/pushdown_predicates.py",
+    "                node.on(predicate.copy(), copy=False)", "                node.on(predicate, copy=False)", "C08.g")
